@@ -412,6 +412,7 @@ type vpCallbacks struct {
 	promoteAt  int64
 	onDemoteFn func()
 	blockOnCtx bool
+	drain      time.Duration // after cancellation the callback needs this long to wind down
 }
 
 func (c *vpCallbacks) install(e Election) {
@@ -424,6 +425,9 @@ func (c *vpCallbacks) install(e Election) {
 		vpEvent("promote", token)
 		if c.blockOnCtx {
 			<-ctx.Done()
+			if c.drain > 0 {
+				time.Sleep(c.drain)
+			}
 		}
 	})
 	e.OnDemote(func() {
